@@ -142,6 +142,19 @@ func (r *FnRun) binop(fr *Frame, st *State, op token.Token, xv, yv Val, xt, yt, 
 	case token.SUB:
 		return ovf(App("-", SInt, x, y))
 	case token.MUL:
+		_, xl := isLit(x)
+		_, yl := isLit(y)
+		if !xl && !yl && !(r.wraps && unsigned) && b != nil {
+			// a product of two unknowns: state the divisibility facts the
+			// solvers' nonlinear engines find only sometimes (theorems of
+			// integer arithmetic, not assumptions)
+			p := r.define("ar", App("*", SInt, x, y))
+			lo, hi, _ := intRange(b)
+			r.oblige("OVF", where, And(Le(BigLit(lo), p), Le(p, BigLit(hi))), st)
+			r.assume(Imp(Not(Eq(y, IntLit(0))), And(Eq(App("mod", SInt, p, y), IntLit(0)), Eq(App("div", SInt, p, y), x))))
+			r.assume(Imp(Not(Eq(x, IntLit(0))), And(Eq(App("mod", SInt, p, x), IntLit(0)), Eq(App("div", SInt, p, x), y))))
+			return p
+		}
 		return ovf(App("*", SInt, x, y))
 	case token.QUO:
 		r.oblige("DIV", where, Not(Eq(y, IntLit(0))), st)
@@ -329,6 +342,22 @@ func (r *FnRun) valEq(a, b Val) Term {
 		}
 		unsup("slice comparison")
 	case PtrVal, IfaceVal, ClosureVal:
+		// an interface value compared with a pointer (specifications only):
+		// equal iff the interface holds that pointer
+		if iv, ok := a.(IfaceVal); ok {
+			if pv, ok := b.(PtrVal); ok {
+				if ip, ok := iv.Inner.(PtrVal); ok {
+					return Eq(r.scalarOf(ip), r.scalarOf(pv))
+				}
+			}
+		}
+		if pv, ok := a.(PtrVal); ok {
+			if iv, ok := b.(IfaceVal); ok {
+				if ip, ok := iv.Inner.(PtrVal); ok {
+					return Eq(r.scalarOf(ip), r.scalarOf(pv))
+				}
+			}
+		}
 		return Eq(r.scalarOf(a), r.scalarOf(b))
 	}
 	unsup("equality on %T", a)
